@@ -2,6 +2,7 @@ package main
 
 import (
 	"fmt"
+	"go/ast"
 	"go/constant"
 	"go/token"
 	"go/types"
@@ -208,6 +209,7 @@ func rulesC11(c *Ctx) {
 		}
 	}
 
+	allSubsC11(c)
 	// ---- C11.cap ----
 	c.Rule("C11.cap", "every slice matchRegex allocates for a product or a character-class expansion is sized by a value tested `> 100` on a failing branch first, and a list grown by appending alternatives is tested `> 100` before it is returned: more than 100 literals are never produced")
 	nCap := 0
@@ -449,4 +451,96 @@ func connectiveC11(c *Ctx) {
 		}
 	}
 	c.Check(paren, "C11.connective", "RewriteRegexConditions$lit: multi-literal result", lit.Pos(), "the OR/AND chain must be returned inside a ParenExpr, or it regroups with the surrounding condition")
+}
+
+// allSubsC11: every sub-expression contributes, or the whole expansion fails.
+func allSubsC11(c *Ctx) {
+	p := c.P
+	c.Rule("C11.allsubs", "in matchRegex no loop over the sub-expressions of a node (re.Sub) is left by `break`: a loop that stops early and then succeeds has dropped the remaining alternatives or factors, so the literal set is too small; the only early exits are failing returns")
+	fn := p.Func("matchRegex")
+	fd := p.FuncDecls[fn]
+	if fd == nil || fd.Body == nil {
+		c.Unk("C11.allsubs", "matchRegex", 0, "anchor not found")
+		return
+	}
+	n := 0
+	isSubLoop := func(x ast.Expr) bool {
+		found := false
+		ast.Inspect(x, func(m ast.Node) bool {
+			if sel, ok := m.(*ast.SelectorExpr); ok && sel.Sel.Name == "Sub" {
+				found = true
+			}
+			return true
+		})
+		return found
+	}
+	var checkLoop func(body *ast.BlockStmt, label string, what string, pos token.Pos)
+	checkLoop = func(body *ast.BlockStmt, label, what string, pos token.Pos) {
+		n++
+		key := fmt.Sprintf("matchRegex: loop #%d over %s", n, what)
+		bad := token.NoPos
+		var walk func(nd ast.Node, inner bool)
+		walk = func(nd ast.Node, inner bool) {
+			switch x := nd.(type) {
+			case nil:
+				return
+			case *ast.BranchStmt:
+				if x.Tok == token.BREAK {
+					if (x.Label == nil && !inner) || (x.Label != nil && x.Label.Name == label && label != "") {
+						bad = x.Pos()
+					}
+				}
+				return
+			case *ast.ForStmt:
+				walk(x.Body, true)
+				return
+			case *ast.RangeStmt:
+				walk(x.Body, true)
+				return
+			case *ast.SwitchStmt:
+				walk(x.Body, true)
+				return
+			case *ast.TypeSwitchStmt:
+				walk(x.Body, true)
+				return
+			case *ast.SelectStmt:
+				walk(x.Body, true)
+				return
+			case *ast.FuncLit:
+				return
+			}
+			ast.Inspect(nd, func(m ast.Node) bool {
+				if m == nd || m == nil {
+					return true
+				}
+				walk(m, inner)
+				return false
+			})
+		}
+		walk(body, false)
+		if bad != token.NoPos {
+			c.Bad("C11.allsubs", key, bad, "the loop is left by break and the function goes on to succeed: sub-expressions after that point contribute nothing (at exactly the literal cap the remaining alternatives are dropped)")
+		} else {
+			c.OK("C11.allsubs", key, pos, "no break")
+		}
+	}
+	ast.Inspect(fd.Body, func(nd ast.Node) bool {
+		label := ""
+		if ls, ok := nd.(*ast.LabeledStmt); ok {
+			label = ls.Label.Name
+			nd = ls.Stmt
+		}
+		switch x := nd.(type) {
+		case *ast.RangeStmt:
+			if isSubLoop(x.X) {
+				checkLoop(x.Body, label, types.ExprString(x.X), x.Pos())
+			}
+		case *ast.ForStmt:
+			if x.Cond != nil && isSubLoop(x.Cond) {
+				checkLoop(x.Body, label, types.ExprString(x.Cond), x.Pos())
+			}
+		}
+		return true
+	})
+	c.Floor("C11.allsubs", n, 2)
 }
